@@ -272,6 +272,35 @@ class Run:
         print('%s %s: %s (%d evaluations, %.1fs)' % (pid, self.tier, 'OK' if rc == 0 else 'FAILED', cov.get('evaluations', 0), time.time() - self.t0))
         return rc
 
+def run_tie(run, pkg, src, n, area):
+    """Run the correspondence module tools/tie_<pkg>.py (cases evaluated by the Coq model and spec through one coqc call, and by the
+    real compiler in `src`): implementation != spec -> violation with the case as replay; implementation != model -> correspondence broken.
+    Returns (evaluations, distinct_nontrivial, distribution, samples)."""
+    import importlib
+    try:
+        mod = importlib.import_module('tie_' + pkg)
+    except Exception as e:
+        run.corr_broken.append('tie_%s cannot be loaded: %s' % (pkg, e)); return 0, 0, {}, []
+    lock = open(os.path.join(COQ, '.lock'), 'w')
+    fcntl.flock(lock, fcntl.LOCK_EX)        # the tie evaluates its cases with coqc against the compiled .vo files: no concurrent make
+    try:
+        try:
+            r = mod.run(src, seed(), n, VERIF)
+        except Exception as e:
+            import traceback
+            run.corr_broken.append('tie_%s failed: %s' % (pkg, traceback.format_exc()[-600:])); return 0, 0, {}, []
+    finally:
+        fcntl.flock(lock, fcntl.LOCK_UN); lock.close()
+    for m in r.get('impl_vs_spec', [])[:8]:
+        run.violation(dict(kind='implementation-differs-from-coq-spec', tie=pkg, case=m.get('case'), implementation=m.get('impl'), spec=m.get('spec'),
+                           how='python3 tools/tie_%s.py <dir with built chibicc> %d: the case is compiled / run with the real compiler and evaluated by the Coq spec (vm_compute)' % (pkg, seed())),
+                      dict(area=area, construct='tie-' + pkg))
+    for m in r.get('impl_vs_model', [])[:5]:
+        run.corr_broken.append('tie_%s: implementation differs from the Coq model on %s: impl %s, model %s' % (pkg, str(m.get('case'))[:300], str(m.get('impl'))[:200], str(m.get('model'))[:200]))
+    if r.get('impl_vs_model'): write_replay(run.pid, 'tie_%s_model_mismatches.json' % pkg, r['impl_vs_model'][:50])
+    if r.get('error'): run.corr_broken.append('tie_%s: %s' % (pkg, str(r['error'])[:400]))
+    return int(r.get('evaluations', 0)), int(r.get('distinct_nontrivial', 0)), r.get('distribution', {}), r.get('samples', [])[:2]
+
 def compile_run(cc, src_file, exe, args=(), timeout=120, run_timeout=20):
     """compile a C file with the given compiler command list and run it; returns (status, stdout)
     status: 'ok' | 'compile-fail:<msg>' | 'run-fail:<rc>'"""
